@@ -292,7 +292,15 @@ Decode(bs, bits) ==
      IF ~mr.ok THEN Bad
      ELSE CASE mr.reg = 0 -> E1("INC", osz) [] mr.reg = 1 -> E1("DEC", osz)
             [] mr.reg = 2 -> E1("CALLIND", osz) [] mr.reg = 4 -> E1("JMPIND", osz)
+            [] mr.reg = 3 -> IF mr.mod # 3 THEN E1("CALLFARIND", osz) ELSE Bad
+            [] mr.reg = 5 -> IF mr.mod # 3 THEN E1("JMPFARIND", osz) ELSE Bad
             [] mr.reg = 6 -> E1("PUSH", osz) [] OTHER -> Bad
+  ELSE IF op \in 145..151 THEN Ins(np + 1, "XCHG", osz, <<R(osz, 0), R(osz, lo3)>>)          \* 90+r (90 itself is NOP)
+  ELSE IF op \in 224..227 THEN              \* LOOPNE LOOPE LOOP J(E)CXZ: the counter is CX or ECX by ADDRESS size
+     IF HaveTo(o + 1) THEN Ins(np + 2, <<"LOOPNE", "LOOPE", "LOOP", IF asz = 16 THEN "JCXZ" ELSE "JECXZ">>[op - 223], osz, <<Rel(SLE(Imm(o + 1, 1)))>>) ELSE Bad
+  ELSE IF op = 200 THEN IF HaveTo(o + 3) THEN Ins(np + 4, "ENTER", 0, <<I(Imm(o + 1, 2)), I(Imm(o + 3, 1))>>) ELSE Bad
+  ELSE IF op \in {196, 197} THEN            \* LES / LDS r, m16:16/32
+     IF mr.ok /\ mr.mod # 3 THEN Ins(np + 1 + mr.n, IF op = 196 THEN "LES" ELSE "LDS", osz, <<R(osz, mr.reg), mr.mem>>) ELSE Bad
   ELSE IF SizedNoOp(op, osz) # "" THEN Ins(np + 1, SizedNoOp(op, osz), osz, << >>)
   ELSE IF OneByteNoOp(op) # "" THEN Ins(np + 1, OneByteNoOp(op), 0, << >>)
   ELSE IF op = 15 THEN
@@ -305,7 +313,25 @@ Decode(bs, bits) ==
         IF HaveTo(o + 1 + ow) THEN Ins(np + 2 + ow, "J" \o CCName[op2 - 127], osz, <<Rel(SLE(Imm(o + 2, ow)))>>) ELSE Bad
      ELSE IF op2 = 1 THEN
         IF mr2.ok /\ mr2.mod # 3 /\ mr2.reg \in {0, 1, 2, 3}
-        THEN Ins(np + 2 + mr2.n, <<"SGDT", "SIDT", "LGDT", "LIDT">>[mr2.reg + 1], osz, <<mr2.mem>>) ELSE Bad
+        THEN Ins(np + 2 + mr2.n, <<"SGDT", "SIDT", "LGDT", "LIDT">>[mr2.reg + 1], osz, <<mr2.mem>>)
+        ELSE IF mr2.ok /\ mr2.reg = 4 THEN Ins(np + 2 + mr2.n, "SMSW", IF mr2.mod = 3 THEN osz ELSE 16, <<RMop(mr2, IF mr2.mod = 3 THEN osz ELSE 16)>>)
+        ELSE IF mr2.ok /\ mr2.reg = 6 THEN Ins(np + 2 + mr2.n, "LMSW", 16, <<RMop(mr2, 16)>>)
+        ELSE IF mr2.ok /\ mr2.reg = 7 /\ mr2.mod # 3 THEN Ins(np + 2 + mr2.n, "INVLPG", 0, <<mr2.mem>>)
+        ELSE Bad
+     ELSE IF op2 = 0 THEN                    \* SLDT STR LLDT LTR VERR VERW
+        IF mr2.ok /\ mr2.reg < 6
+        THEN LET w == IF mr2.reg < 2 /\ mr2.mod = 3 THEN osz ELSE 16 IN
+             Ins(np + 2 + mr2.n, <<"SLDT", "STR", "LLDT", "LTR", "VERR", "VERW">>[mr2.reg + 1], w, <<RMop(mr2, w)>>)
+        ELSE Bad
+     ELSE IF op2 \in {182, 183, 190, 191} THEN        \* MOVZX / MOVSX r, r/m8 | r/m16
+        IF mr2.ok THEN LET sw == IF op2 \in {182, 190} THEN 8 ELSE 16 IN
+                       Ins(np + 2 + mr2.n, IF op2 < 184 THEN "MOVZX" ELSE "MOVSX", osz, <<R(osz, mr2.reg), RMop(mr2, sw)>>)
+        ELSE Bad
+     ELSE IF op2 \in 144..159 THEN
+        IF mr2.ok THEN Ins(np + 2 + mr2.n, "SET" \o CCName[op2 - 143], 8, <<RMop(mr2, 8)>>) ELSE Bad
+     ELSE IF op2 \in {178, 180, 181} THEN             \* LSS LFS LGS
+        IF mr2.ok /\ mr2.mod # 3 THEN Ins(np + 2 + mr2.n, CASE op2 = 178 -> "LSS" [] op2 = 180 -> "LFS" [] op2 = 181 -> "LGS", osz, <<R(osz, mr2.reg), mr2.mem>>) ELSE Bad
+     ELSE IF op2 \in 200..207 THEN Ins(np + 2, "BSWAP", 32, <<R(32, op2 - 200)>>)
      ELSE IF op2 = 32 THEN
         IF mr2.ok /\ mr2.mod = 3 THEN Ins(np + 3, "MOV", 32, <<R(32, mr2.rm), C(mr2.reg)>>) ELSE Bad
      ELSE IF op2 = 34 THEN
